@@ -34,6 +34,7 @@ def engMMVV (s : St) (op : String) (a b : Dense) (o : Opts) : Res EngOut := do
   if a.dt != b.dt then throwErr "typeMismatch"
   if !shapeEq a.shape b.shape then throwErr "shapeMismatch"
   let (s, fo) ← handleFuncOpts s a.shape a.dt a.ap.o.col true o
+  let (s, a, b) ← prepAliasVV s a b fo.reuse
   let useIter := a.requiresIterator || b.requiresIterator ||
     (match fo.reuse with | some r => r.requiresIterator | none => false) || !sameOrd a b ||
     (match fo.reuse with | some r => !sameOrd a r || !sameOrd b r | none => false)
@@ -73,6 +74,8 @@ def engMMScalar (s : St) (op : String) (t : Dense) (sc : ScalarArg) (leftTensor 
   if !ordTypes.contains t.dt then throwErr "typeclass t"
   if t.dt != sc.dt then throwErr "scalar dtype"
   let (s, fo) ← handleFuncOpts s t.shape t.dt t.ap.o.col true o
+  let (s, t) ← prepAliasT s t fo.reuse
+  let s := sc.refresh s
   let isSclr := isScalar t.shape
   let useIter := !isSclr && (t.requiresIterator ||
     (match fo.reuse with | some r => r.requiresIterator || !sameOrd r t | none => false))
@@ -105,8 +108,8 @@ def engMMScalar (s : St) (op : String) (t : Dense) (sc : ScalarArg) (leftTensor 
       let ir ← r.itStream s
       if !leftTensor then
         let s ← Dense.copyIterOffsets s r.win dB (ir.map (·.1)) (it.map (·.1))
-        -- `MinBetweenIter(typ, dataA, dataReuse, ait, bit)`: the reuse buffer is walked with the operand's iterator
-        let s ← eMMIter s op dA r.win [] it
+        -- `MinBetweenIter(typ, dataA, dataReuse, ait, iit)`: the result is walked with its own iterator
+        let s ← eMMIter s op dA r.win [] ir
         pure ⟨s, reuseOut, ret⟩
       else
         let s ← Dense.copyIterOffsets s r.win dA (ir.map (·.1)) (it.map (·.1))
@@ -153,29 +156,19 @@ def mmStepM (ps : PState) (_i : Nat) (toks : List String) : PState × StepOut :=
     | _, _ => (ps.failVar, .fields "r=skip")
   | _ => (ps, .fields "r=badprog")
 
-/-- F31 (shared with the comparisons): scalar-left on an iterator path walks the result tensor (given or created) with the
-    operand's offsets. F10 (shared with `bin`): the reuse tensor is the second operand; the destination of an unsafe call
-    (the first operand) shares storage cells with the other operand through a different access pattern. -/
+/-- F10 (shared with `bin`; what is left of it): the destination of an unsafe call (the first operand) shares storage
+    cells with the other operand through a different access pattern. -/
 def mmExcl (ps : PState) (toks : List String) : List String × Bool :=
   match toks with
   | "mmb" :: _ :: _ :: a :: b :: opts =>
     let uns := opts.contains "unsafe"
     let reuse := (opts.find? (·.startsWith "reuse=")).bind (fun t => (ps.obj (t.drop 6).toString).map (·.2))
-    let reuseId := (opts.find? (·.startsWith "reuse=")).bind (fun t => (ps.obj (t.drop 6).toString).map (·.1))
-    let f31 := a.startsWith "#" && (match ps.obj b with
-      | some (_, t) => Excl_cmpSameIterSV t reuse false true (uns && reuse.isNone)
-      | none => false)
-    let overlaps (p q : Dense) : Bool := p.win.buf == q.win.buf && p.win.off < q.win.off + q.win.len && q.win.off < p.win.off + p.win.len
-    let samePattern (p q : Dense) : Bool := p.win.off == q.win.off && p.win.len == q.win.len && p.ap.shape == q.ap.shape && p.ap.strides == q.ap.strides
-    let f10 := match ps.obj a, ps.obj b, reuseId with
-      | some _, some (bid, _), some rid => rid == bid
-      | _, _, _ => false
-    let f10 := f10 || (uns && reuse.isNone && (match ps.obj a, ps.obj b with
-      | some (_, x), some (_, y) => overlaps x y && !samePattern x y
-      | _, _ => false))
+    let f10 := uns && reuse.isNone && (match ps.obj a, ps.obj b with
+      | some (_, x), some (_, y) => sharesMemory x y && !sameAccess x y
+      | _, _ => false)
     let tens := [a, b].filterMap (fun t => (ps.obj t).map (·.2))
     let f35 := tens.any (fun t => Excl_reuseOrderFlip t reuse)
-    ((if f31 then ["F31"] else []) ++ (if f10 then ["F10"] else []) ++ (if f35 then ["F35"] else []), true)
+    ((if f10 then ["F10"] else []) ++ (if f35 then ["F35"] else []), true)
   | _ => ([], false)
 
 /-- S: elementwise minimum / maximum (`minb x y`, both orders agree on NaN-free data). -/
